@@ -14,7 +14,12 @@ type tickerState struct {
 // newTicker models time.NewTicker: an environment thread delivers up to
 // m.maxTicks ticks (each a scheduling point) and then ends.
 func (m *Machine) newTicker(th *Thread, fn *ssa.Function) Value {
-	pt := fn.Signature.Results().At(0).Type()
+	return m.newTickerN(th, fn.Signature.Results().At(0).Type(), m.maxTicks)
+}
+
+// newTickerN builds a *time.Ticker / *time.Timer (both are structs with a channel field C)
+// whose environment thread delivers up to n ticks, each at an arbitrary scheduling point.
+func (m *Machine) newTickerN(th *Thread, pt types.Type, n int) Value {
 	st := deref(pt).Underlying().(*types.Struct)
 	cell := new(Value)
 	*cell = m.zero(deref(pt))
@@ -27,7 +32,6 @@ func (m *Machine) newTicker(th *Thread, fn *ssa.Function) Value {
 			(*cell).(Struct)[i] = ch
 			tk := &tickerState{ch: ch}
 			m.tickers[cell] = tk
-			n := m.maxTicks
 			m.newThread("ticker", func(t *Thread) {
 				for i := 0; i < n; i++ {
 					t.schedPoint("tick")
